@@ -13,8 +13,9 @@ every variant V (committed as its own revision on top of BASE):
   same       : merge(THIS=V, OTHER=V' same tree, separate commit) == V, no conflicts
   disjoint   : merge(THIS=V1, OTHER=V2), changed id sets disjoint and the union a tree
                == union, no conflicts   (pairs of <=1-edit variants; thorough: 1+2 edits)
-bzr (2a) trees with all three merge types, git trees (merge3; weave/lca on the single-edit
-variants) as a separate sub-run with separate signatures.  Expected trees come from a pure
+bzr (2a) trees and git trees as separate sub-runs with separate signatures; merge3 everywhere,
+weave and lca on the <=1-edit variants (quick) / all variants (thorough) for the first three
+laws and on the single-edit pairs of the disjoint law (quick: base 3 only).  Expected trees come from a pure
 model (checks/_c17model.py) and every variant's committed revision tree is compared with
 the model before use.  Compared after the merge, from a freshly opened tree: versioned
 (path, kind, file id), directory bytes / modes / symlinks, do_merge()'s conflict count and
@@ -372,7 +373,8 @@ def _work(chunk):
             tree, labels, kinds = variants[vi]
             for law, tv, ov, which, expected, ikinds in instances(variants, vi, _CFG, fmt):
                 for mname in MERGERS:
-                    if mname != "merge3" and len(labels) > _CFG["alt_merger_len"]:
+                    if mname != "merge3" and (len(labels) > _CFG["alt_merger_len"] or (
+                            law == "disjoint" and (bi not in _CFG["alt_merger_disjoint_bases"] or len(ikinds) > 2))):
                         continue
                     cond, obs = merge_once(w, tv, ov, which, mname)
                     acc.n += 1
@@ -454,9 +456,11 @@ def run(ctx):
     # script length bound per base, which pairs take part in the disjoint law, and how far the
     # alternative merge types (weave, lca) go
     if ctx.thorough:
-        _CFG.update(lens=[2, 2, 2, 2], disjoint_this_len=2, disjoint_other_len=1, alt_merger_len=2)
+        _CFG.update(lens=[2, 2, 2, 2], disjoint_this_len=2, disjoint_other_len=1, alt_merger_len=2,
+                    alt_merger_disjoint_bases=(0, 1, 2, 3))
     else:
-        _CFG.update(lens=[2, 1, 1, 2], disjoint_this_len=1, disjoint_other_len=1, alt_merger_len=1)
+        _CFG.update(lens=[2, 1, 1, 2], disjoint_this_len=1, disjoint_other_len=1, alt_merger_len=1,
+                    alt_merger_disjoint_bases=(3,))
     fmts = ("bzr", "git")
     items = []
     nvar = {}
